@@ -436,6 +436,9 @@ func runSession(cutStep int, kind string, cutAt int, r *vx.Report) (reqLen, resp
 		}
 		sort.Ints(w.events)
 	})
+	if e.HarnessErr != "" {
+		r.HarnessErrs = append(r.HarnessErrs, fmt.Sprintf("eio session cut at step %d (%s, byte %d): %s", cutStep, kind, cutAt, e.HarnessErr))
+	}
 	if len(e.Panics) > 0 {
 		violate("eio: panic while handling a cut byte stream", "%v", e.Panics)
 	}
